@@ -272,6 +272,30 @@ def run_cell(impl, via, cell, out):
                         V('cookie_wrong', 'cookie=%s open#%d' % (cell['cookie'], attempt), 'open #%d: Set-Cookie %r, want one of %r' % (attempt, ck2, ref2))
                     if sid2 == hsid:
                         V('sid_reused', 'open#%d' % attempt, 'open #%d reused sid %r' % (attempt, sid2))
+            # an open over the OTHER transport on the same server is told what holds for its own transport
+            other = 'websocket' if via == 'polling' else 'polling'
+            if other in allowed and (other == 'polling' or cell['ws_avail']) and not cell['jsonp'] and cell['buf'] >= 6:
+                want_other = ['websocket'] if (other == 'polling' and cell['allow'] and 'websocket' in allowed and cell['ws_avail']) else []
+                if other == 'polling':
+                    ro = w.http('GET', peer.BASEQ)
+                    w.run()
+                    do = peer.open_data(ro)
+                else:
+                    so = w.ws(peer.WSQ)
+                    w.run()
+                    fo = so.frames[0][2] if so.accepted and so.frames else None
+                    try:
+                        do = json.loads(fo[1:]) if isinstance(fo, str) and fo.startswith('0') else None
+                    except ValueError:
+                        do = None
+                if do is None:
+                    V('repeat_open_failed', 'open_other_transport', 'an open over %s after one over %s was not answered with an OPEN packet' % (other, via))
+                else:
+                    got_o = {k: do.get(k) for k in ('pingInterval', 'pingTimeout', 'maxPayload', 'upgrades')}
+                    want_o = {'pingInterval': want_pi, 'pingTimeout': want_pt, 'maxPayload': cell['buf'], 'upgrades': want_other}
+                    if got_o != want_o:
+                        V('repeat_open_differs', 'open_other_transport', 'after an open over %s, an open over %s announced %r, want %r'
+                          % (via, other, got_o, want_o))
             return 'accepted'
         # rejection
         if status != 401:
